@@ -87,6 +87,56 @@ def run_impl(c):
                         break
                 if not ok:
                     fail = {'kind': 'pre-error-content-lost', 'detail': 'strict had parsed %s before the error at %r; tolerant returns %s' % (a, p2.pos, b)}
+    if not fail and not c.get('ps') and not c.get('pre'):
+        # the documented token_reader= argument: a tolerant walker driven with a reader the caller made (LatexTokenReader(s),
+        # whose own tolerant_parsing default is False, so token errors are RAISED by the reader and recovered by the walker):
+        # no exception, and what strict mode had completed before its error is still there
+        try:
+            from pylatexenc.latexnodes import LatexTokenReader
+            from pylatexenc.latexnodes.parsers import LatexGeneralNodesParser
+            w4 = parsecase.make_walker(c)
+            p4, _ = w4.parse_content(LatexGeneralNodesParser(), token_reader=LatexTokenReader(s))
+        except RecursionError:
+            raise
+        except Exception as e:
+            p4 = None
+            fail = {'kind': 'tolerant-raised', 'detail': 'tolerant walker with a caller-made LatexTokenReader: %s: %s' % (type(e).__name__, str(e)[:200])}
+        if not fail and p4 is not None and kind2 == 'err':
+            rn = getattr(p2, 'recovery_nodes', None)
+            if rn is not None and isinstance(rn, N.LatexNodeList):
+                a = [n for n in rn if n is not None]
+                b = [n for n in p4 if n is not None]
+                ok = len(a) <= len(b)
+                for i, n1 in enumerate(a):
+                    if not ok: break
+                    n2 = b[i]
+                    if dump.dump_node(n1) == dump.dump_node(n2):
+                        continue
+                    if i == len(a) - 1 and isinstance(n1, N.LatexCharsNode) and isinstance(n2, N.LatexCharsNode) and n1.pos == n2.pos and n2.chars.startswith(n1.chars):
+                        continue
+                    ok = False
+                if not ok:
+                    fail = {'kind': 'pre-error-content-lost', 'detail': 'tolerant walker with a caller-made LatexTokenReader on %r: strict had parsed %s before the error at %r; returned %s'
+                                                                   % (s, [dump.dump_node(n) for n in a], p2.pos, [dump.dump_node(n) for n in b])}
+        if not fail and p4 is not None and kind2 == 'err' and isinstance(getattr(p2, 'pos', None), int):
+            # the top-level nodes that the ordinary tolerant parse completed before the position of the first error are
+            # also what this parse returns first (the last of them, if text, up to trailing blanks)
+            E = p2.pos
+            a = [n for n in p if n is not None and n.pos_end is not None and n.pos_end < E]     # strictly before: a node ending AT the error may contain it
+            while a and isinstance(a[-1], N.LatexCharsNode) and not a[-1].chars.strip():
+                a.pop()         # blanks in front of the token that could not be read belong to that token (its pre-space)
+            b = [n for n in p4 if n is not None]
+            # (how the failing construct itself is recovered may differ between the two readers; what must not differ is that
+            # the source before it is still covered by returned nodes — blanks aside)
+            covered = set()
+            for n in b:
+                if n.pos is not None and n.pos_end is not None:
+                    covered.update(range(n.pos, n.pos_end))
+            need = set(q for n in a for q in range(n.pos, n.pos_end) if not s[q].isspace())
+            ok = need <= covered
+            if not ok:
+                fail = {'kind': 'pre-error-content-lost', 'detail': 'tolerant walker with a caller-made LatexTokenReader on %r: first error at %r; the ordinary tolerant parse has %s before it; returned %s'
+                                                               % (s, E, [dump.dump_node(n) for n in a], [dump.dump_node(n) for n in b])}
     return {'out': out, 'fail': fail, 'sig': 'T:' + kind2 + ':' + parseprops.sig_of(kind, p)}
 
 shrink_candidates = parseprops.shrink_parse_case
